@@ -275,7 +275,8 @@ class Check:
                 raise MachineryError(f"trace run of {module} consumed {done} of {len(evs)} lines\n{r.out[-3000:]}")
             for b in r.printed("BAD"):
                 ev = evs[b[2] - 1]
-                bad.append({"tid": b[1], "line": b[2], "clause": b[3], "extra": b[4:], "event": ev})
+                for cl in (b[3] if isinstance(b[3], list) else [b[3]]):
+                    bad.append({"tid": b[1], "line": b[2], "clause": cl, "extra": b[4:], "event": ev})
             self.cov["states"] += r.distinct
             self.cov["transitions"] += r.generated
         self.cov["traces_validated_against_impl"] += len({e.get("tid") for e in events})
